@@ -24,6 +24,10 @@ def run_rules(prop: str, root: str, tier: str):
     mod.run(model, col, tier)
     for rule, what, count, minimum in col.floors:
         if count < minimum:
+            if col.violations:
+                # a violated rule already explains the tree; a vacuous sibling rule is reported, not fatal
+                col.info(f"rule {rule}: only {count} instance(s) of '{what}' (expected >= {minimum})")
+                continue
             raise AnalysisError(
                 f"rule {rule}: only {count} instance(s) of '{what}' found, "
                 f"{minimum} were confirmed by reading; the rule would pass vacuously"
